@@ -127,6 +127,7 @@ public:
                 _next = nullptr;
                 //empty load, but enforce memory order acquire because this thread will
                 //access to result
+                COCLS_VERIF_LOG("fence_tgt", reinterpret_cast<long>(&chain), 0);
                 std::atomic_thread_fence(std::memory_order_acquire);
                 return false;
             }
